@@ -499,7 +499,9 @@ pub(crate) fn converge(node: &mut Node, world: &World, now: &mut u64) -> BTreeMa
     // keeps growing meanwhile (blocks without activity): a client cannot prove a peer whose
     // tip is exactly its stored tip.
     let mut grown = chain.fork(chain.tip_number(), 7);
-    for _ in 0..8 {
+    // (a record can list every block of the chain - a batch filtered for a script set whose
+    // start numbers all lie above it matches everything - and a round downloads a few blocks)
+    for _ in 0..40 {
         grown.append_simple(1);
         let chain_of = |_p: PeerIndex| Some(&grown);
         if node.i().peers.get_state(&peer).is_none() {
@@ -760,7 +762,7 @@ pub fn run(opts: &Options, prop: &str) -> Report {
                     rep.violate(
                         "C08|stuck-after-crash",
                         "after a crash the filter sync never reaches the tip again",
-                        replay(format!("# crash at store write {} of {}; min filtered {} tip {} records {:?}", k, total, obs.min_f, world.chain.tip_number(), obs.records)),
+                        replay(format!("# crash at store write {} of {} ({}); scripts {:?}; min filtered {} tip {} records {:?}", k, total, cout.crash_ctx, obs.scripts, obs.min_f, world.chain.tip_number(), obs.records.iter().map(|r| (r.0, r.1, r.2.len())).collect::<Vec<_>>())),
                     );
                 }
             }
